@@ -375,3 +375,9 @@ pub unsafe fn cas_weak_stub<T: Copy + PartialEq>(dst: *mut T, old: T, new: T, _s
         Err(cur)
     }
 }
+
+/// `std::thread::panicking()` is environment: a handle may be released at any point of an unwinding, so the
+/// answer is an arbitrary bool. What a property says about releasing a handle holds in either case.
+pub fn panicking_stub() -> bool {
+    kani::any()
+}
